@@ -399,7 +399,7 @@ impl Db {
 
     pub fn ingest_buffer(&self, eb: EventBuffer) {
         self.op.set("ingest");
-        block_on(self.handle().ingest_efficient(eb));
+        poll_to_completion(self.handle().ingest_efficient(eb));
         self.op.set("");
     }
 
@@ -441,12 +441,23 @@ impl Db {
     /// threads of the old instance have exited), bounded by 10 s.
     pub fn close(&mut self, quiescent: bool) -> bool {
         self.op.set("close");
+        let token = self.db.as_ref().map(|d| d.verif_liveness());
         if let Some(db) = self.db.take() {
             drop(db);
         }
         let mut ok = true;
         if quiescent {
-            ok = wait_no_instances(Duration::from_secs(10));
+            if let Some(token) = token {
+                // wait until every thread of *this* instance has exited (bounded; background threads poll every second)
+                let start = Instant::now();
+                while token.strong_count() > 0 {
+                    if start.elapsed() > Duration::from_secs(20) {
+                        ok = false;
+                        break;
+                    }
+                    std::thread::sleep(Duration::from_millis(5));
+                }
+            }
         }
         self.op.set("");
         ok
@@ -486,20 +497,66 @@ impl Db {
     }
 }
 
+/// Directories of closed databases. Background threads of a dropped instance may still be flushing into the
+/// directory for a moment, so it is only removed once it has been idle for a few seconds.
+static GRAVEYARD: std::sync::Mutex<Vec<(Instant, PathBuf)>> = std::sync::Mutex::new(Vec::new());
+
+fn bury(path: PathBuf) {
+    let mut g = GRAVEYARD.lock().unwrap();
+    g.push((Instant::now(), path));
+    let mut keep = Vec::new();
+    for (t, p) in g.drain(..) {
+        if t.elapsed() > Duration::from_secs(6) {
+            let _ = std::fs::remove_dir_all(&p);
+        } else {
+            keep.push((t, p));
+        }
+    }
+    *g = keep;
+}
+
 impl Drop for Db {
     fn drop(&mut self) {
         self.db.take();
         if self.owns_dir {
-            if let Some(p) = &self.path {
-                let _ = std::fs::remove_dir_all(p);
+            if let Some(p) = self.path.take() {
+                bury(p);
             }
         }
     }
 }
 
+/// Drives a future that completes without ever suspending (ingest_efficient blocks internally and itself uses
+/// `futures::executor::block_on`, which must not be nested inside another futures executor). Falls back to a
+/// helper thread with `block_on` if the future does suspend.
+pub fn poll_to_completion<F: std::future::Future>(fut: F) -> F::Output {
+    use std::task::{Context, Poll, RawWaker, RawWakerVTable, Waker};
+    fn noop_raw() -> RawWaker {
+        fn clone(_: *const ()) -> RawWaker {
+            noop_raw()
+        }
+        fn noop(_: *const ()) {}
+        static VTABLE: RawWakerVTable = RawWakerVTable::new(clone, noop, noop, noop);
+        RawWaker::new(std::ptr::null(), &VTABLE)
+    }
+    let waker = unsafe { Waker::from_raw(noop_raw()) };
+    let mut cx = Context::from_waker(&waker);
+    let mut fut = Box::pin(fut);
+    loop {
+        match fut.as_mut().poll(&mut cx) {
+            Poll::Ready(v) => return v,
+            Poll::Pending => std::thread::sleep(Duration::from_millis(1)),
+        }
+    }
+}
+
 pub fn wait_no_instances(max: Duration) -> bool {
+    wait_instances_at_most(0, max)
+}
+
+pub fn wait_instances_at_most(n: usize, max: Duration) -> bool {
     let start = Instant::now();
-    while locustdb::verif::live_instances() > 0 {
+    while locustdb::verif::live_instances() > n {
         if start.elapsed() > max {
             return false;
         }
